@@ -23,7 +23,7 @@ EFF_NAMES = {
     16: "when C: n -= d2", 17: "n := u", 18: "u -= d", 19: "u += d", 20: "forall y:T. when p(y): b := true",
     21: "p(w(x)) := false (nested fluent in the effect target)",
 }
-INV_NAMES = {0: "always n <= c3", 1: "always b or p(o1)"}
+INV_NAMES = {0: "always n <= c3", 1: "always b or p(o1)", 2: "always forall y. b or not p(y)"}
 TRAJ_NAMES = {0: "sometime b", 1: "at-most-once p(o1)", 2: "sometime-before b p(o1)", 3: "sometime-after p(o1) b",
               4: "always (b or not p(o2))", 5: "sometime p(o2)", 6: "at-most-once b"}
 
@@ -235,6 +235,9 @@ def _build(ctx, sk, env=None):
             prob.add_state_invariant(em.LE(em.FluentExp(n), em.Int(C("c3"))))
         elif i == 1:
             prob.add_state_invariant(em.Or(em.FluentExp(b), em.FluentExp(p, [em.ObjectExp(o1)])))
+        elif i == 2:
+            y = Variable("y", T, env)
+            prob.add_state_invariant(em.Forall(em.Or(em.FluentExp(b), em.Not(em.FluentExp(p, [em.VariableExp(y)]))), y))
     for i in sk.get("goal", [0]):
         prob.add_goal(cond(i, em.ObjectExp(o1)))
     for i in sk.get("traj", []):
@@ -251,8 +254,8 @@ def _build(ctx, sk, env=None):
         conds |= {sk.get("effcond", 2)}
     if (set(sk.get("second_action") or [])) & {1, 5, 9, 14, 16}:
         conds |= {sk.get("effcond2", 0)}
-    uses_b = bool(conds & {0, 1, 6, 8}) or bool(effs & {0, 1, 12, 20}) or 1 in sk.get("inv", []) or sk.get("fork_all")
-    uses_p = bool(conds & {2, 6, 7, 8, 11, 12}) or bool(effs & {6, 10, 13, 15, 20, 21}) or 1 in sk.get("inv", []) or sk.get("fork_all")
+    uses_b = bool(conds & {0, 1, 6, 8}) or bool(effs & {0, 1, 12, 20}) or bool({1, 2} & set(sk.get("inv", []))) or sk.get("fork_all")
+    uses_p = bool(conds & {2, 6, 7, 8, 11, 12}) or bool(effs & {6, 10, 13, 15, 20, 21}) or bool({1, 2} & set(sk.get("inv", []))) or sk.get("fork_all")
     prob.set_initial_value(em.FluentExp(b), em.Bool(bool(ctx.choice("b0", 2)) if uses_b else False))
     for o in objs:
         prob.set_initial_value(em.FluentExp(p, [em.ObjectExp(o)]), em.Bool(bool(ctx.choice(f"p0_{o.name}", 2)) if uses_p else False))
